@@ -3,6 +3,7 @@
 
       PCount          bump_add                                   (the update counter; iterators are invalidated even by a rejected add)
       PTransforms     run_transforms  on views of the pre-call store
+      PIndices        indices = np.asarray(indices, dtype=np.int32): the model's [idxs : list nat] (can raise for non-integers: before any write)
       PEmptyReturn    length idxs = 0  ->  (s, Ok)
       PLenCheck       length idxs <> length xs  ->  ValueError
       PKeyCheck       keys_ok = false  ->  ValueError
@@ -19,10 +20,10 @@ From PV Require Import Generated.StoreAddGen.
 Import ListNotations.
 
 Definition model_phases : list phase :=
-  [PCount; PInit; PTransforms; PEmptyReturn; PLenCheck; PKeyCheck; PConvert; POccupancyRead; POccupancyWrite; PWrite; PReturn].
+  [PCount; PInit; PTransforms; PIndices; PEmptyReturn; PLenCheck; PKeyCheck; PConvert; POccupancyRead; POccupancyWrite; PWrite; PReturn].
 
 Definition can_raise (p : phase) : bool :=
-  match p with PTransforms | PLenCheck | PKeyCheck | PConvert | POccupancyRead => true | _ => false end.
+  match p with PTransforms | PIndices | PLenCheck | PKeyCheck | PConvert | POccupancyRead => true | _ => false end.
 
 (** writes to occupancy or to the field arrays (PCount only touches the update counter) *)
 Definition writes (p : phase) : bool := match p with POccupancyWrite | PWrite => true | _ => false end.
